@@ -3,6 +3,11 @@ From Coq Require Import List Arith NArith Bool Lia.
 From Muscle Require Import Pulse.PulseModel.
 Import ListNotations.
 
+(* MUSCLE_TIME_NEVER (regenerated from util/TimeUtilityFunctions.h on every run) is the largest uint64: this is what
+   justifies the model's clamping of an oracle's answer to NEVER (a C++ callback cannot return anything larger) *)
+Lemma never_is_uint64_max : NEVER = (2 ^ 64 - 1)%N.
+Proof. vm_compute. reflexivity. Qed.
+
 (* ------------------------------------------------------------------ maps *)
 
 Lemma upd_same m x n : upd m x n x = n.
